@@ -159,13 +159,27 @@ func vC01DupNames(rc *runCtx) {
 	name := vNamePool[tp.Draw("dup.name", len(vNamePool))]
 	var paths []string
 	var contents [][]byte
+	// ... or two directories of the same name (from two parents) that both hold a file at the same relative path
+	asDirs := tp.Bool("dup.dirs", 400)
+	if asDirs {
+		cfg.dirMode = true
+	}
 	for i := 0; i < 2; i++ {
 		d := filepath.Join(src, fmt.Sprintf("20%02d", 23+i))
 		os.MkdirAll(d, 0755)
 		b, _ := vGenContent(tp, 1+tp.Draw("dup.size", 20000))
 		b = append(b, byte('A'+i))
-		vWriteFile(filepath.Join(d, name), b)
-		paths = append(paths, filepath.Join(d, name))
+		if asDirs {
+			top := filepath.Join(d, "conf")
+			rel := []string{"app.ini", filepath.Join("sub", name)}[tp.Draw("dup.rel", 2)]
+			os.MkdirAll(filepath.Dir(filepath.Join(top, rel)), 0755)
+			vWriteFile(filepath.Join(top, rel), b)
+			vWriteFile(filepath.Join(top, fmt.Sprintf("only-in-%d.txt", i)), []byte(fmt.Sprintf("unique %d", i)))
+			paths = append(paths, top)
+		} else {
+			vWriteFile(filepath.Join(d, name), b)
+			paths = append(paths, filepath.Join(d, name))
+		}
 		contents = append(contents, b)
 	}
 	if tp.Bool("dup.other", 500) {
@@ -180,7 +194,7 @@ func vC01DupNames(rc *runCtx) {
 	o := cfg.opts()
 	o.srcPaths, o.dstDir = paths, dst
 	o.profile = vDrawProfile(tp, cfg.timeout)
-	rc.res.ClassKey = "dupnames " + cfg.key()
+	rc.res.ClassKey = fmt.Sprintf("dupnames dirs=%v %s", asDirs, cfg.key())
 	rc.res.Scenario["config"] = cfg.key()
 	rc.res.Scenario["flags"] = strings.Join(o.flags, " ")
 	before := vSnapshot(dst)
